@@ -209,9 +209,61 @@ pub fn trace_hash_c(r: &CRes) -> u64 {
     hash64(&(&r.ev, format!("{:?}{:?}", r.status, r.end)))
 }
 
+
+// ---------------------------------------------------------------------------
+// execution watchdog: a single execution takes microseconds; one that runs for tens of
+// seconds means a poll of the subject does not return (a loop inside the library).
+
+pub const WATCH_SLOTS: usize = 256;
+pub static WATCH_START_MS: [std::sync::atomic::AtomicU64; WATCH_SLOTS] = [const { std::sync::atomic::AtomicU64::new(0) }; WATCH_SLOTS];
+pub static WATCH_DESC: Mutex<Vec<(usize, String)>> = Mutex::new(Vec::new());
+static WATCH_NEXT: AtomicUsize = AtomicUsize::new(0);
+static EPOCH: std::sync::OnceLock<Instant> = std::sync::OnceLock::new();
+
+thread_local! {
+    static WATCH_SLOT: usize = WATCH_NEXT.fetch_add(1, Ordering::Relaxed) % WATCH_SLOTS;
+}
+
+fn now_ms() -> u64 {
+    EPOCH.get_or_init(Instant::now).elapsed().as_millis() as u64 + 1
+}
+
+fn watch_job(desc: String) {
+    let slot = WATCH_SLOT.with(|s| *s);
+    let mut d = WATCH_DESC.lock().unwrap();
+    d.retain(|e| e.0 != slot);
+    d.push((slot, desc));
+}
+
+#[inline]
+fn watch_exec_begin() {
+    WATCH_SLOT.with(|s| WATCH_START_MS[*s].store(now_ms(), Ordering::Relaxed));
+}
+
+#[inline]
+fn watch_exec_end() {
+    WATCH_SLOT.with(|s| WATCH_START_MS[*s].store(0, Ordering::Relaxed));
+}
+
+/// Returns the description of a job one of whose executions has been running for more than
+/// `limit_ms`.
+pub fn watch_stuck(limit_ms: u64) -> Option<(String, u64)> {
+    let now = now_ms();
+    for slot in 0..WATCH_SLOTS {
+        let st = WATCH_START_MS[slot].load(Ordering::Relaxed);
+        if st != 0 && now.saturating_sub(st) > limit_ms {
+            let d = WATCH_DESC.lock().unwrap();
+            let desc = d.iter().find(|e| e.0 == slot).map(|e| e.1.clone()).unwrap_or_default();
+            return Some((desc, now - st));
+        }
+    }
+    None
+}
+
 /// Full DFS of one (spec, cfg) job.
 pub fn explore_job<M: Mask>(spec: &Spec, info: &Info<M>, cfg: &JobCfg, focus: &Focus, lim: &Limits, st: &mut Stats) {
     st.jobs += 1;
+    watch_job(serde_json::to_string(&json!({"graph": spec, "job": cfg.to_json(), "text": format!("{} | {}", cfg.short(), spec.short())})).unwrap_or_default());
     let mut stack: Vec<Vec<u16>> = vec![vec![]];
     let mut states: HashSet<u64> = HashSet::new();
     let mut traces: HashSet<u64> = HashSet::new();
@@ -232,6 +284,7 @@ pub fn explore_job<M: Mask>(spec: &Spec, info: &Info<M>, cfg: &JobCfg, focus: &F
         }
         viols.clear();
         let (taken, th, ev, result, is_nontrivial, polls, state_hashes, diverged): (Vec<Taken>, u64, Vec<Ev>, String, bool, usize, Vec<u64>, bool);
+        watch_exec_begin();
         match cfg {
             JobCfg::S(c) => {
                 let mut g = fresh();
@@ -263,6 +316,7 @@ pub fn explore_job<M: Mask>(spec: &Spec, info: &Info<M>, cfg: &JobCfg, focus: &F
             }
             JobCfg::B(_) | JobCfg::H(..) => unreachable!("not a schedule-exploration job"),
         }
+        watch_exec_end();
         if diverged {
             st.machinery_errors.push(format!("replay divergence: {} {} prefix={:?}", spec.short(), cfg.short(), prefix));
             continue;
